@@ -388,11 +388,7 @@ def parse_items(path, rel):
             names = [x[0] for x in hdr]
             if "for" in names:
                 f = names.index("for")
-                trait = [x for x in hdr[:f] if x[1] == "id"]
-                # last identifier before generics of the trait path
-                tparts = split_top(hdr[:f], "<")
-                trait_name = [x[0] for x in hdr[:f] if x[1] == "id"]
-                # trait name = identifier just before `<` or `for`
+                # trait name = last identifier of the path, before its generics
                 tn = None
                 for x in hdr[:f]:
                     if x[0] == "<":
@@ -462,8 +458,6 @@ def parse_items(path, rel):
                                 fl = parse_fields(rest[1:c], f"{where}::{vname}", False)
                                 if len(fl) != 1:
                                     raise Unparsed(f"{where}::{vname}: tuple variant with {len(fl)} fields is not modelled")
-                                if fl[0]["attrs"]:
-                                    vattrs = vattrs  # field attrs reported below
                                 payload = fl[0]
                                 rest = rest[c + 1:]
                             elif rest and rest[0][0] == "{":
